@@ -74,7 +74,7 @@ def _lru_body(maxsize, n, i0, i1, i2, ki):
         disposed.append(v)
         lock_held_in_dispose.append(box["c"].lock._is_owned())
 
-    nodispose = bool(getattr(P, "nodispose", False))
+    nodispose = bool(P.get("nodispose", False))
     c = RecentlyUsedContainer(maxsize, dispose_func=None if nodispose else dispose)
     box["c"] = c
     mon = Monitored()
